@@ -1,5 +1,5 @@
 \* storage level with an explicit view carried through all later steps (one disjunct per code
-\* case, used with -coverage): head 0..1, <= 2 slots, <= 1 tx per slot, one view
+\* case, used with -coverage): head 0..1, <= 2 slots, ids {a, blank}, <= 1 tx per slot, newClasses {} or {k1}, one view
 CONSTANTS
   MaxHead = 1
   MaxSlots = 2
@@ -15,8 +15,8 @@ CONSTANTS
   TxDiff <- MCTxDiff
   TxDecl <- MCTxDecl
   ClassIds <- MCClassIds
-  FullBlocks <- FullBlocksSmall
-  Deltas <- DeltasSmall
+  FullBlocks <- FullBlocksMini
+  Deltas <- DeltasMini
   ClassSets <- ClassSets1
   Variants = {1}
   CanonDiff <- MCCanonDiff
